@@ -1,8 +1,149 @@
-/-! Line-protocol driver for component `Journal` (stub; the component owner replaces `run`). -/
+import PSO.Model.Journal
+/-!
+Line-protocol driver for component `journal` (model `PSO.Journal`).
+
+One command per line, tokens separated by single spaces, bytes as lower-case hex (`-` = empty).
+
+  new <verhex>                      fresh journal (file did not exist), APP_VERSION bytes given
+  load <filehex> <meta|none>        open an arbitrary disk image
+  add <idx> <term> <cmdhex> | clear | delfrom <n> | delto <n> | setci <v> | timer | reopen
+                                    -> `ok <summary> P <prims>`  or  `err <kind>` (state unchanged)
+  img                               -> hex of the journal file
+  ents                              -> `idx:term:len:adler,...` of the cached entry list
+  crash <k> <t> <op ...>            -> crash image of <op> at the current state (state unchanged):
+                                       `ok np=<#prims> <disk> | <open summary>`
+  crashimg <k> <t> <op ...>         -> hex of that crash image
+
+summary = `len= cur= ci= saved= fsize= fsum= meta= tmp=`; prims = `R<n>`, `S<off>:<len>:<adler>`,
+`TC`, `TW<v|none>`, `TM`, comma separated (`-` = none).
+-/
 namespace Driver.Journal
+open PSO PSO.Journal
+
+def hexDigit (n : Nat) : Char :=
+  if n < 10 then Char.ofNat (48 + n) else Char.ofNat (87 + n)
+
+def toHex (bs : Bytes) : String :=
+  if bs.isEmpty then "-" else
+  bs.foldl (fun s b => (s.push (hexDigit (b.toNat / 16))).push (hexDigit (b.toNat % 16))) ""
+
+def hexVal (c : Char) : Nat :=
+  let n := c.toNat
+  if n ≥ 48 && n ≤ 57 then n - 48 else if n ≥ 97 && n ≤ 102 then n - 87 else 0
+
+def fromHexAux : List Char → Array UInt8 → Array UInt8
+  | a :: b :: rest, acc => fromHexAux rest (acc.push (UInt8.ofNat (hexVal a * 16 + hexVal b)))
+  | _, acc => acc
+
+def fromHex (s : String) : Bytes :=
+  if s == "-" then [] else (fromHexAux s.toList #[]).toList
+
+def adler (bs : Bytes) : Nat :=
+  let (a, b) := bs.foldl (fun (p : Nat × Nat) x =>
+    let a := (p.1 + x.toNat) % 65521
+    (a, (p.2 + a) % 65521)) (1, 0)
+  b * 65536 + a
+
+def optStr : Option Nat → String
+  | none => "none"
+  | some v => toString v
+
+def tmpStr : Tmp → String
+  | .absent => "absent"
+  | .torn => "torn"
+  | .full v => "full:" ++ optStr v
+
+def primStr : Prim → String
+  | .resize n => s!"R{n}"
+  | .store off bs => s!"S{off}:{bs.length}:{adler bs}"
+  | .tmpCreate => "TC"
+  | .tmpWrite v => "TW" ++ optStr v
+  | .tmpMove => "TM"
+
+def primsStr (ps : List Prim) : String :=
+  if ps.isEmpty then "-" else ",".intercalate (ps.map primStr)
+
+def diskStr (d : Disk) : String :=
+  s!"fsize={d.file.length} fsum={adler d.file} meta={optStr d.metaFile} tmp={tmpStr d.tmp}"
+
+def summary (j : FJ) : String :=
+  s!"len={j.entries.length} cur={j.cur} ci={j.commitIndex} saved={if j.metaSaved then 1 else 0} " ++ diskStr j.disk
+
+def entStr (e : Entry) : String := s!"{e.idx}:{e.term}:{e.cmd.length}:{adler e.cmd}"
+
+def entsStr (es : List Entry) : String :=
+  if es.isEmpty then "-" else ",".intercalate (es.map entStr)
+
+def errStr : Err → String
+  | .structError => "structError"
+  | .emptyFile => "emptyFile"
+
+def parseOp : List String → Option Op
+  | ["add", i, t, c] => do
+    let i ← i.toNat?
+    let t ← t.toNat?
+    pure (.add ⟨fromHex c, i, t⟩)
+  | ["clear"] => some .clear
+  | ["delfrom", n] => n.toNat?.map .delFrom
+  | ["delto", n] => n.toNat?.map .delTo
+  | ["setci", v] => v.toNat?.map .setCommit
+  | ["timer"] => some .timer
+  | ["reopen"] => some .reopen
+  | _ => none
+
+def opPrims (j : FJ) (op : Op) : List Prim :=
+  match j.step op with
+  | .ok (_, ps) => ps
+  | .error _ => []
+
+def handle (j : FJ) (line : String) : FJ × String :=
+  let toks := line.splitOn " "
+  match toks with
+  | ["new", v] => let j' := create (fromHex v); (j', "ok " ++ summary j')
+  | ["load", f, m] =>
+    let d : Disk := { file := fromHex f, metaFile := m.toNat? }
+    match openDisk d with
+    | .ok (j', ps) => (j', "ok " ++ summary j' ++ " P " ++ primsStr ps)
+    | .error e => (j, "err " ++ errStr e)
+  | ["img"] => (j, toHex j.disk.file)
+  | ["ents"] => (j, entsStr j.entries)
+  | "crash" :: k :: t :: rest =>
+    match k.toNat?, t.toNat?, parseOp rest with
+    | some k, some t, some op =>
+      let ps := opPrims j op
+      let d := crashDisk j.disk ps k t
+      let o := match openDisk d with
+        | .ok (j', _) => s!"len={j'.entries.length} cur={j'.cur} ci={j'.commitIndex} ents={entsStr j'.entries}"
+        | .error e => "err " ++ errStr e
+      (j, s!"ok np={ps.length} {diskStr d} | {o}")
+    | _, _, _ => (j, "bad")
+  | "crashimg" :: k :: t :: rest =>
+    match k.toNat?, t.toNat?, parseOp rest with
+    | some k, some t, some op => (j, toHex (crashDisk j.disk (opPrims j op) k t).file)
+    | _, _, _ => (j, "bad")
+  | _ =>
+    match parseOp toks with
+    | some op =>
+      match j.step op with
+      | .ok (j', ps) => (j', "ok " ++ summary j' ++ " P " ++ primsStr ps)
+      | .error e => (j, "err " ++ errStr e)
+    | none => (j, "bad")
+
+partial def loop (h : IO.FS.Stream) (out : IO.FS.Stream) (j : FJ) : IO Unit := do
+  let line ← h.getLine
+  if line.isEmpty then return ()
+  let line := (line.trimAscii).toString
+  if line.isEmpty then loop h out j
+  else
+    let (j', r) := handle j line
+    out.putStrLn r
+    out.flush
+    loop h out j'
 
 def run : IO UInt32 := do
-  IO.eprintln "driver component Journal: not implemented"
-  return 3
+  let stdin ← IO.getStdin
+  let stdout ← IO.getStdout
+  loop stdin stdout (create [])
+  return 0
 
 end Driver.Journal
